@@ -498,33 +498,6 @@ def ia_cases(ctx, dbname, dbt, n):
     return cases
 
 
-def run_ia_db(ctx, exe, dbname, n, stats, sel_cache):
-    db = vlib.REPO / "database" / dbname
-    dbt = DbText(db)
-    cases = ia_cases(ctx, dbname, dbt, n)
-    ops = [f"run {i} {hs(t)}\n" for i, (t, _) in enumerate(cases)]
-    ses = session(ctx, exe, db, None, ops)
-    res = []
-    if ses["db"] != 0:
-        stats["db_load_failed"].append(dbname)
-        return dbt, ses, cases, res
-    for run in ses["runs"]:
-        i = int(run["id"])
-        stats["runs"] += 1
-        if run["ret"] != 0 or not run["sols"]:
-            stats["not_converged"] += 1
-            continue
-        stats["judged_runs"] += 1
-        d = cases[i][1]
-        stats["temp_hist"][min(9, int(d["temp"] // 10))] += 1
-        mu = run["sols"][0]["R"]["mu_osm"][0]
-        stats["mu_hist"][max(0, min(5, int(math.floor(math.log10(max(mu, 1e-5))) + 5)))] += 1
-        probs = judge_ia(ctx, dbname, dbt, ses, run, stats, sel_cache)
-        if probs:
-            res.append((i, probs))
-    return dbt, ses, cases, res
-
-
 # ------------------------------------------------------------------------------------------- (3) Pitzer / SIT: skeleton
 def pz_model_block(pz):
     """pmodel block for one dump of the engine's Pitzer / SIT arrays; species renumbered by position in s_list"""
@@ -696,16 +669,11 @@ def run_gd_path(ctx, exe, db, extra, names, path, stats):
                         "lhs": info.get("lhs"), "rhs": info.get("rhs")}
 
 
-def pz_names(dbt):
-    names = db_names(dbt)
-    return names
-
-
 def run_pz_db(ctx, exe, dbname, extra, npaths, nrand, stats):
     db = vlib.REPO / "database" / dbname
     ex = (vlib.REPO / "database" / extra) if extra else None
     dbt = DbText(db)
-    names = pz_names(dbt)
+    names = db_names(dbt)
     label = dbname + ("+" + extra if extra else "")
     out = {"label": label, "bad": [], "corr": []}
     # (i) skeleton: engine arrays at the end of real solutions, then direct evaluations on random numbers
@@ -1002,5 +970,8 @@ MANIFEST = dict(
     note="Trusted: Lean kernel, harness/ph_gamma.cpp (friend access, BASIC callback), the Python parser/diff/quadrature in "
          "tools/props/c16.py. Partial: Gibbs-Duhem for the ionic-strength-dependent terms (Debye-Hueckel F, beta1/beta2 g-functions, "
          "E-theta) is a numerical oracle on real outputs, not a theorem; pitzer() is modelled for patm <= 1 only; exchange and "
-         "surface species (gflag 4, 6) are outside the model; J, J' (ETHETA_PARAMS) enter the model as numbers read from the engine.",
+         "surface species (gflag 4, 6) are outside the model; J, J' (ETHETA_PARAMS) enter the model as numbers read from the engine. "
+         "Known finding gd-dh-slope-depends-on-aw: in the Pitzer model A0 follows the water activity (p_sat in calc_rho_0), "
+         "which breaks Gibbs-Duhem by up to 3e-4 near 100 C; a path whose excess over 1e-4 is accounted for by the recorded A0 "
+         "variation is reported as that finding (a fixed probe path reproduces it on every run), any other excess is a violation.",
 )
